@@ -6,7 +6,8 @@ Import ListNotations.
 From K Require Import Proofs.TwoByte.
 From K Require Import Model.Cost Model.Addressing Proofs.MemProofs Proofs.StepProofs Proofs.StepRefines Proofs.StepRefinesCtl Proofs.StepRefines2.
 From K Require Import Proofs.FourByte Proofs.StepRefines4.
-From K Require Import Model.Bus Spec.MemMap Spec.Price Spec.Domains Proofs.PriceProofs Proofs.RegProofs Proofs.ChargeTotals Proofs.RefStep Proofs.FrameRest.
+From K Require Import Model.Bus Spec.MemMap Spec.Price Spec.Domains Proofs.PriceProofs Proofs.RegProofs Proofs.ChargeTotals Proofs.RefStep Proofs.FrameRest Proofs.Preserve.
+From K Require Import Model.Ops.
 From Coq Require Import Lia ZifyBool.
 Open Scope Z_scope.
 
@@ -147,6 +148,24 @@ Theorem step_touches_only_registers_and_plain_memory :
     step s = Ok n s2 -> rest s2 = rest s.
 Proof. exact step_leaves_rest_proof. Qed.
 
+(* well-formedness is an invariant: of the reference semantics inside the domain, hence of the model's step *)
+Theorem reference_preserves_well_formedness :
+  forall i len s s', state_ok s -> operands_ok i -> dom_c20 i len s = true -> sem_ref i len s = Some s' -> state_ok s'.
+Proof. exact sem_ref_state_ok. Qed.
+Theorem step_preserves_well_formedness :
+  forall s i len s' n s2,
+    state_ok s -> ref_decode s = Some (i, len) -> side_ok i s -> dom_c20 i len s = true -> sem_ref i len s = Some s' ->
+    step s = Ok n s2 -> state_ok s2.
+Proof. exact step_preserves_state_ok. Qed.
+
+(* ... so the statement extends to ANY number of instructions: if the reference executes n instructions from s without leaving
+   the domain (ref_exec: decode, domain test, reference semantics, n times; total of the priced cycle tables), then n steps of
+   the model from s end in exactly that state with exactly that total ([stepn n 0]: what the stepn: operation of the
+   correspondence protocol runs), and the final state is well-formed again *)
+Theorem any_number_of_steps_is_the_reference_execution :
+  forall n s c s2, state_ok s -> ref_exec n s = Some (c, s2) -> stepn n 0 s = Ok c s2 /\ state_ok s2.
+Proof. exact steps_are_ref_steps. Qed.
+
 (* the hypotheses are satisfiable: MOV.B R0H,R1H (0C 01) at H'FFC000 in on-chip RAM *)
 Definition c07_ex_state : cpu :=
   mkCpu 0xffc000 0 0 regs0
@@ -176,6 +195,9 @@ Proof.
   - reflexivity.
 Qed.
 
+Example c07_exec_example : exists c s2, ref_exec 1 c07_ex_state = Some (c, s2).
+Proof. eexists. eexists. vm_compute. reflexivity. Qed.
+
 Print Assumptions first_word_dispatch.
 Print Assumptions unimplemented_rejected.
 Print Assumptions second_word_dispatch_01.
@@ -187,3 +209,6 @@ Print Assumptions four_byte_decode_operand.
 Print Assumptions step_executes_the_decoded_instruction.
 Print Assumptions step_is_the_reference_step.
 Print Assumptions step_touches_only_registers_and_plain_memory.
+Print Assumptions reference_preserves_well_formedness.
+Print Assumptions step_preserves_well_formedness.
+Print Assumptions any_number_of_steps_is_the_reference_execution.
